@@ -192,7 +192,11 @@ CLAIMS['C18'] = ('exploration',
     'small scope (3 modules, OID sets of up to 2/3 OIDs from a universe with digit-sharing siblings and nested '
     'subtrees, 1-3 incremental builds) is executed on the real function and the clauses of the property (identity / '
     'enterprise / compliance entries, component-wise cover naming the module, only-own listing, monotone rebuild, '
-    're-indexing changes nothing) are evaluated on the result. MibCompiler.buildIndex, which feeds it, is under a '
+    're-indexing changes nothing) are evaluated on the result. Discharged for all inputs (fresh build): the four '
+    'sections stay dicts of lists through the collection loops, the compacted oids section keeps only entries of the full '
+    'section with their module lists, and every OID of the full section has a component-wise prefix entry in it; that the '
+    'entry also names every module of the OID (superset test) is left to the bounded part - the solvers do not carry '
+    'the element-set reasoning under the existential. MibCompiler.buildIndex, which feeds it, is under a '
     'discharged contract (old index forwarded, result stored under the index name, dryRun, error handling).',
     'Scope: quick 8.6k scenarios, thorough 0.8M scenarios in 16 shards; outside the scope nothing is claimed. '
     'D7 (string prefix) and D33 (order-dependent reduction) were found by this check and fixed.', '5 C18')
